@@ -225,28 +225,28 @@ struct A { int u = 0; int v = 0; In *inp[2] = {nullptr, nullptr}; static const r
 #define rObject A
 const rtosc::Ports A::ports = { rParamI(u, "u"), rParamI(v, "v"), rRecursp(inp, 2, "enumerated POINTER sub-trees below an enumerated sub-tree") };
 #undef rObject
-struct V { bool on = true; int q = 0; static const rtosc::Ports ports; };      // a sub-tree that switches ITSELF off: its "self:" port is enabled by a toggle of its own table
+struct V { int on_count = 0; bool on = true; int q = 0; static const rtosc::Ports ports; };      // a sub-tree that switches ITSELF off: its "self:" port is enabled by a toggle of its own table
 #define rObject V
-const rtosc::Ports V::ports = { rSelf(V, rEnabledBy(on)), rToggle(on, "on"), rParamI(q, "q") };
+const rtosc::Ports V::ports = { rSelf(V, rEnabledBy(on)), rParamI(on_count, "a port whose name EXTENDS the name of the enabling toggle, declared before it"), rToggle(on, "on"), rParamI(q, "q") };
 #undef rObject
 struct W { S<6> first;      // a member sub-tree at offset 0: its object has the SAME address as the object that contains it
-           int x = 0; bool en = true; S<3> m; S<4> *p1 = nullptr; S<5> *p2 = nullptr; A arr[2]; V vs; static const rtosc::Ports ports; };
+           int x = 0; bool en_x = false; bool en = true; S<3> m; S<4> *p1 = nullptr; S<5> *p2 = nullptr; A arr[2]; V vs; static const rtosc::Ports ports; };
 #define rObject W
 const rtosc::Ports W::ports = {
-    rParamI(x, "x"), rToggle(en, "en"), rRecur(m, rEnabledBy(en), "member sub-tree"), rRecurp(p1, "pointer sub-tree"), rRecurp(p2, "pointer sub-tree"), rRecurs(arr, 2, "enumerated sub-trees"), rRecur(first, "member sub-tree at offset 0"), rRecur(vs, "self-enabled sub-tree"),
+    rParamI(x, "x"), rToggle(en_x, "a toggle whose name extends the name of the enabling toggle, declared before it"), rToggle(en, "en"), rRecur(m, rEnabledBy(en), "member sub-tree"), rRecurp(p1, "pointer sub-tree"), rRecurp(p2, "pointer sub-tree"), rRecurs(arr, 2, "enumerated sub-trees"), rRecur(first, "member sub-tree at offset 0"), rRecur(vs, "self-enabled sub-tree"),
 };
 #undef rObject
 }
 static void do_walksugar(const std::string &line, const J &in, FILE *out) {
     using namespace wsugar;
-    W app; S<4> s4; S<5> s5; if (in["p1"].b) app.p1 = &s4; if (in["p2"].b) app.p2 = &s5; app.en = in["en"].b; app.vs.on = in["vs_on"].b; bool use_rt = in["rt"].b;
+    W app; S<4> s4; S<5> s5; if (in["p1"].b) app.p1 = &s4; if (in["p2"].b) app.p2 = &s5; app.en = in["en"].b; app.en_x = !app.en; app.vs.on = in["vs_on"].b; app.vs.on_count = app.vs.on ? 0 : 1; /* the look-alikes always say the opposite */ bool use_rt = in["rt"].b;
     In ins[4]; for (int i = 0; i < 2; ++i) for (int j = 0; j < 2; ++j) if (in["inp"][i * 2 + j].b) app.arr[i].inp[j] = &ins[i * 2 + j];
     port_ids.clear();
-    // ids: top level 1..9 in table order (x, en, m/, m:, p1/, p2/, arr#2/, first/, first:, vs/, vs:), sub-tree ports 10*k+1, 10*k+2
+    // ids: top level 1..12 in table order (x, en_x, en, m/, m:, p1/, p2/, arr#2/, first/, first:, vs/, vs:), sub-tree ports 10*k+1, 10*k+2
     for (size_t k = 0; k < W::ports.ports.size(); ++k) port_ids[&W::ports.ports[k]] = (int)k + 1;
     auto sub = [&](const rtosc::Ports &ps, int base) { for (size_t k = 0; k < ps.ports.size(); ++k) port_ids[&ps.ports[k]] = base + (int)k + 1; };
     sub(S<3>::ports, 30); sub(S<4>::ports, 50); sub(S<5>::ports, 60); sub(A::ports, 70); sub(In::ports, 80); sub(S<6>::ports, 90); sub(V::ports, 100);
-    JW w; w.obj().kstr("k", "walk").key("table").raw("@T@").kbool("rt", use_rt).key("state").arr().arr().num(2).boolean(app.en).end_arr().arr().num(102).boolean(app.vs.on).end_arr().end_arr();
+    JW w; w.obj().kstr("k", "walk").key("table").raw("@T@").kbool("rt", use_rt).key("state").arr().arr().num(3).boolean(app.en).end_arr().arr().num(103).boolean(app.vs.on).end_arr().end_arr();
     w.key("runs").arr();
     int sig = vg_run(60, [&] {
         static const char *PREF[2] = {"", "/"};
